@@ -1,8 +1,10 @@
 package main
 
 import (
+	"fmt"
 	"go/ast"
 	"go/token"
+	"os"
 )
 
 func init() { constGens["detector"] = genDetector }
@@ -33,12 +35,12 @@ func c06Cmp(s *src, n ast.Node, lhs string, op token.Token) []ast.Expr {
 
 func c06OneInt(s *src, where string, es []ast.Expr) int64 {
 	if len(es) == 0 {
-		die("detector: %s not found", where)
+		c06Die("detector: %s not found", where)
 	}
 	v := s.evalInt(es[0], nil, 0)
 	for _, e := range es[1:] {
 		if s.evalInt(e, nil, 0) != v {
-			die("detector: %s has diverging values", where)
+			c06Die("detector: %s has diverging values", where)
 		}
 	}
 	return v
@@ -46,12 +48,12 @@ func c06OneInt(s *src, where string, es []ast.Expr) int64 {
 
 func c06OneStr(s *src, where string, es []ast.Expr) string {
 	if len(es) == 0 {
-		die("detector: %s not found", where)
+		c06Die("detector: %s not found", where)
 	}
 	v := s.evalString(es[0])
 	for _, e := range es[1:] {
 		if s.evalString(e) != v {
-			die("detector: %s has diverging values", where)
+			c06Die("detector: %s has diverging values", where)
 		}
 	}
 	return v
@@ -70,166 +72,222 @@ func c06Args(cs []*ast.CallExpr, i int) []ast.Expr {
 // genDetector reads comm.go's trigger detector (detectTrzsz, rewriteTrzszTrigger,
 // addRelaySuffix, isRepeatedID, parseTrzszVersion, the three regexps) and the trigger
 // format strings of trz.go / tsz.go.
+type c06Fail string
+
+// c06Die aborts the current block of the detector extractor only (see c06Try).
+func c06Die(f string, a ...any) { panic(c06Fail(fmt.Sprintf(f, a...))) }
+
+// c06Try runs one block of the extractor; if the source no longer has the expected
+// shape the block's definitions are left out (the Coq build of the detector model then
+// fails, which bin/check reports as a broken obligation of C06) while every other block,
+// every other property's constants, the correspondence run and the direct oracles still work.
+func c06Try(o *out, what string, f func(o *out)) {
+	tmp := &out{}
+	defer func() {
+		if r := recover(); r != nil {
+			m, ok := r.(c06Fail)
+			if !ok {
+				panic(r)
+			}
+			o.raw("(* detector: %s: NOT TRANSLATED: %s *)\n", what, string(m))
+			fmt.Fprintf(os.Stderr, "gen: detector: %s: not translated: %s\n", what, string(m))
+			return
+		}
+		o.b.WriteString(tmp.b.String())
+	}()
+	f(tmp)
+}
+
 func genDetector(s *src, o *out) {
 	// ---- detectTrzsz
 	d := s.fn("trzszDetector.detectTrzsz").Body
-	o.defN("det_min_len", c06OneInt(s, "len(output) < N", c06Cmp(s, d, "len(output)", token.LSS)))
-	o.defBytes("det_marker", c06OneStr(s, "bytes.LastIndex marker", c06Args(c06Calls(s, d, "bytes.LastIndex"), 1)))
-	off := c06OneInt(s, "len(subOutput) > N", c06Cmp(s, d, "len(subOutput)", token.GTR))
-	var lows []ast.Expr
-	ast.Inspect(d, func(x ast.Node) bool {
-		if sl, ok := x.(*ast.SliceExpr); ok && s.text(sl.X) == "subOutput" && sl.Low != nil && sl.High == nil {
-			lows = append(lows, sl.Low)
-		}
-		return true
-	})
-	if c06OneInt(s, "subOutput[N:]", lows) != off {
-		die("detector: look-ahead offset differs between the length test and the slice")
-	}
-	o.defN("det_finished_offset", off)
-	var words []string
-	ast.Inspect(d, func(x ast.Node) bool {
-		if r, ok := x.(*ast.RangeStmt); ok {
-			if cl, ok := r.X.(*ast.CompositeLit); ok && s.text(cl.Type) == "[]string" {
-				if s.text(r.Body) != "{ if bytes.Contains(subOutput["+s.text(lows[0])+":], []byte(s)) { return output, nil } }" {
-					die("detector: finished-word loop has an unexpected body: %s", s.text(r.Body))
-				}
-				for _, e := range cl.Elts {
-					words = append(words, s.evalString(e))
-				}
-			}
-		}
-		return true
-	})
-	if len(words) == 0 {
-		die("detector: finished-word list not found")
-	}
-	o.raw("Definition det_finished_words : list (list N) := [")
-	for i, w := range words {
-		if i > 0 {
-			o.raw("; ")
-		}
-		bs := make([]int64, len(w))
-		for j := 0; j < len(w); j++ {
-			bs[j] = int64(w[j])
-		}
-		o.raw("%s", nlist(bs))
-	}
-	o.raw("].\n")
-	o.defBytes("det_win_id", c06OneStr(s, `uniqueID == "1"`, c06Cmp(s, d, "uniqueID", token.EQL)))
-	o.defN("det_win_id_len", c06OneInt(s, "winServer len(uniqueID) == N", c06Cmp(s, d, "len(uniqueID)", token.EQL)))
-	o.defBytes("det_win_suffix", c06OneStr(s, "winServer HasSuffix", c06Args(c06Calls(s, d, "strings.HasSuffix"), 1)))
-	ra := c06Calls(s, d, "bytes.ReplaceAll")
-	if len(ra) != 1 || len(ra[0].Args) != 3 || s.text(ra[0].Args[0]) != "output" {
-		die("detector: expected exactly one bytes.ReplaceAll(output, old, new) in detectTrzsz")
-	}
-	o.defBytes("det_client_old", s.evalString(ra[0].Args[1]))
-	o.defBytes("det_client_new", s.evalString(ra[0].Args[2]))
-
-	// ---- isRepeatedID
-	r := s.fn("trzszDetector.isRepeatedID").Body
-	o.defN("det_id_min_len", c06OneInt(s, "len(uniqueID) > N", c06Cmp(s, r, "len(uniqueID)", token.GTR)))
-	o.defN("det_plain_id_len", c06OneInt(s, "isRepeatedID len(uniqueID) == N", c06Cmp(s, r, "len(uniqueID)", token.EQL)))
-	o.defBytes("det_plain_suffix", c06OneStr(s, "isRepeatedID HasSuffix", c06Args(c06Calls(s, r, "strings.HasSuffix"), 1)))
-	o.defN("det_prune_limit", c06OneInt(s, "len(detector.uniqueIDMap) > N", c06Cmp(s, r, "len(detector.uniqueIDMap)", token.GTR)))
-	keep := c06OneInt(s, "v >= N", c06Cmp(s, r, "v", token.GEQ))
-	if c06OneInt(s, "v - N", c06Cmp(s, r, "v", token.SUB)) != keep {
-		die("detector: prune threshold and shift differ")
-	}
-	o.defN("det_prune_keep", keep)
-
-	// ---- rewriteTrzszTrigger
-	w := s.fn("trzszDetector.rewriteTrzszTrigger").Body
-	o.defN("det_rewrite_min_len", c06OneInt(s, "len(uniqueID) >= N", c06Cmp(s, w, "len(uniqueID)", token.GEQ)))
-	o.defBytes("det_rewrite_suffix", c06OneStr(s, "bytes.HasSuffix", c06Args(c06Calls(s, w, "bytes.HasSuffix"), 1)))
-	var back, ch []ast.Expr
-	ast.Inspect(w, func(x ast.Node) bool {
-		if a, ok := x.(*ast.AssignStmt); ok && a.Tok == token.ASSIGN && len(a.Lhs) == 1 && len(a.Rhs) == 1 {
-			if ix, ok := a.Lhs[0].(*ast.IndexExpr); ok && s.text(ix.X) == "newUniqueID" {
-				if b, ok := ix.Index.(*ast.BinaryExpr); ok && b.Op == token.SUB && s.text(b.X) == "len(uniqueID)" {
-					back = append(back, b.Y)
-					ch = append(ch, a.Rhs[0])
-				}
-			}
-		}
-		return true
-	})
-	if len(back) != 1 {
-		die("detector: expected exactly one newUniqueID[len(uniqueID)-k] = c")
-	}
-	o.defN("det_retag_back", s.evalInt(back[0], nil, 0))
-	o.defN("det_retag_char", s.evalInt(ch[0], nil, 0))
-
-	// ---- addRelaySuffix
-	a := s.fn("trzszDetector.addRelaySuffix").Body
-	var offs []ast.Expr
-	ast.Inspect(a, func(x ast.Node) bool {
-		if as, ok := x.(*ast.AssignStmt); ok && as.Tok == token.ADD_ASSIGN && s.text(as.Lhs[0]) == "idx" {
-			offs = append(offs, as.Rhs[0])
-		}
-		return true
-	})
-	o.defN("det_relay_offset", c06OneInt(s, "idx += N", offs))
-	stop := c06Cmp(s, a, "c", token.NEQ)
-	if len(stop) != 2 {
-		die("detector: addRelaySuffix scan class has an unexpected shape")
-	}
-	o.raw("Definition det_relay_scan_chars : list N := [%d; %d].\n", s.evalInt(stop[0], nil, 0), s.evalInt(stop[1], nil, 0))
-	o.defN("det_relay_scan_lo", c06OneInt(s, "c >= lo", c06Cmp(s, a, "c", token.GEQ)))
-	o.defN("det_relay_scan_hi", c06OneInt(s, "c <= hi", c06Cmp(s, a, "c", token.LEQ)))
-	var sufs []ast.Expr
-	for _, c := range c06Calls(s, a, "buf.Write") {
-		if len(c.Args) == 1 {
-			if cv, ok := c.Args[0].(*ast.CallExpr); ok && s.text(cv.Fun) == "[]byte" {
-				sufs = append(sufs, cv.Args[0])
-			}
-		}
-	}
-	o.defBytes("det_relay_suffix", c06OneStr(s, `buf.Write([]byte("#R"))`, sufs))
-
-	// ---- parseTrzszVersion
-	p := s.fn("parseTrzszVersion").Body
-	o.defBytes("det_version_sep", c06OneStr(s, "strings.Split sep", c06Args(c06Calls(s, p, "strings.Split"), 1)))
-	nf := c06OneInt(s, "len(tokens) != N", c06Cmp(s, p, "len(tokens)", token.NEQ))
-	if c06OneInt(s, "i < N", c06Cmp(s, p, "i", token.LSS)) != nf {
-		die("detector: parseTrzszVersion token count and loop bound differ")
-	}
-	o.defN("det_version_fields", nf)
-	pu := c06Calls(s, p, "strconv.ParseUint")
-	o.defN("det_version_base", c06OneInt(s, "ParseUint base", c06Args(pu, 1)))
-	o.defN("det_version_bits", c06OneInt(s, "ParseUint bits", c06Args(pu, 2)))
-
-	// ---- the regexps
-	for _, nv := range [][2]string{{"det_trzsz_regex_src", "trzszRegexp"}, {"det_uid_regex_src", "uniqueIDRegexp"}, {"det_tmux_regex_src", "tmuxControlModeRegexp"}} {
-		e, ok := s.vars[nv[1]]
-		if !ok {
-			die("detector: var %s not found", nv[1])
-		}
-		c, ok := e.(*ast.CallExpr)
-		if !ok || s.text(c.Fun) != "regexp.MustCompile" || len(c.Args) != 1 {
-			die("detector: %s is not regexp.MustCompile(<literal>)", nv[1])
-		}
-		o.defBytes(nv[0], s.evalString(c.Args[0]))
-	}
-
-	// ---- what trz / tsz print
-	for _, nf := range [][2]string{{"det_trz_format", "TrzMain"}, {"det_tsz_format", "TszMain"}} {
-		var fm []ast.Expr
-		f, ok := s.funcs[nf[1]]
-		if !ok {
-			die("detector: %s not found", nf[1])
-		}
-		for _, c := range c06Calls(s, f.Body, "fmt.Sprintf") {
-			if len(c.Args) > 0 {
-				if bl, ok := c.Args[0].(*ast.BasicLit); ok && bl.Kind == token.STRING {
-					if v := s.evalString(bl); len(v) > 20 && contains06(v, "TRANSFER") {
-						fm = append(fm, bl)
+	c06Try(o, "detectTrzsz head", func(o *out) {
+		o.defN("det_min_len", c06OneInt(s, "len(output) < N", c06Cmp(s, d, "len(output)", token.LSS)))
+		o.defBytes("det_marker", c06OneStr(s, "bytes.LastIndex marker", c06Args(c06Calls(s, d, "bytes.LastIndex"), 1)))
+	}) // end block detect-head
+	c06Try(o, "finished-transfer look-ahead", func(o *out) {
+		// the if statement that guards the loop over the []string literal of finished words;
+		// robust against a change of the scanned slice: the offset is read from the slice
+		// expression, the SHAPE (what is measured, what is scanned) is emitted as a string
+		// that Proofs/Detector.v pins, so a changed shape breaks a lemma, not the translator
+		var guard *ast.IfStmt
+		var loop *ast.RangeStmt
+		ast.Inspect(d, func(x ast.Node) bool {
+			if is, ok := x.(*ast.IfStmt); ok && loop == nil {
+				for _, st := range is.Body.List {
+					if r, ok := st.(*ast.RangeStmt); ok {
+						if cl, ok := r.X.(*ast.CompositeLit); ok && s.text(cl.Type) == "[]string" {
+							guard, loop = is, r
+						}
 					}
 				}
 			}
+			return true
+		})
+		if loop == nil {
+			c06Die("detector: finished-word loop not found")
 		}
-		o.defBytes(nf[0], c06OneStr(s, nf[1]+" trigger format", fm))
-	}
+		var lows []ast.Expr
+		var scanned []string
+		ast.Inspect(loop.Body, func(x ast.Node) bool {
+			if sl, ok := x.(*ast.SliceExpr); ok && sl.Low != nil && sl.High == nil {
+				lows = append(lows, sl.Low)
+				scanned = append(scanned, s.text(sl.X))
+			}
+			return true
+		})
+		off := c06OneInt(s, "finished-word scan slice X[N:]", lows)
+		o.defN("det_finished_offset", off)
+		var words []string
+		for _, e := range loop.X.(*ast.CompositeLit).Elts {
+			words = append(words, s.evalString(e))
+		}
+		if len(words) == 0 {
+			c06Die("detector: finished-word list is empty")
+		}
+		o.raw("Definition det_finished_words : list (list N) := [")
+		for i, w := range words {
+			if i > 0 {
+				o.raw("; ")
+			}
+			bs := make([]int64, len(w))
+			for j := 0; j < len(w); j++ {
+				bs[j] = int64(w[j])
+			}
+			o.raw("%s", nlist(bs))
+		}
+		o.raw("].\n")
+		// shape: guard condition and loop body with the word list elided
+		o.defBytes("det_finished_shape", "if "+s.text(guard.Cond)+" { for _, s := range WORDS "+s.text(loop.Body)+" }")
+	})
+	c06Try(o, "detectTrzsz tail", func(o *out) {
+		o.defBytes("det_win_id", c06OneStr(s, `uniqueID == "1"`, c06Cmp(s, d, "uniqueID", token.EQL)))
+		o.defN("det_win_id_len", c06OneInt(s, "winServer len(uniqueID) == N", c06Cmp(s, d, "len(uniqueID)", token.EQL)))
+		o.defBytes("det_win_suffix", c06OneStr(s, "winServer HasSuffix", c06Args(c06Calls(s, d, "strings.HasSuffix"), 1)))
+		ra := c06Calls(s, d, "bytes.ReplaceAll")
+		if len(ra) != 1 || len(ra[0].Args) != 3 || s.text(ra[0].Args[0]) != "output" {
+			c06Die("detector: expected exactly one bytes.ReplaceAll(output, old, new) in detectTrzsz")
+		}
+		o.defBytes("det_client_old", s.evalString(ra[0].Args[1]))
+		o.defBytes("det_client_new", s.evalString(ra[0].Args[2]))
+
+	})
+	// ---- isRepeatedID
+	c06Try(o, "isRepeatedID", func(o *out) {
+		r := s.fn("trzszDetector.isRepeatedID").Body
+		o.defN("det_id_min_len", c06OneInt(s, "len(uniqueID) > N", c06Cmp(s, r, "len(uniqueID)", token.GTR)))
+		o.defN("det_plain_id_len", c06OneInt(s, "isRepeatedID len(uniqueID) == N", c06Cmp(s, r, "len(uniqueID)", token.EQL)))
+		o.defBytes("det_plain_suffix", c06OneStr(s, "isRepeatedID HasSuffix", c06Args(c06Calls(s, r, "strings.HasSuffix"), 1)))
+		o.defN("det_prune_limit", c06OneInt(s, "len(detector.uniqueIDMap) > N", c06Cmp(s, r, "len(detector.uniqueIDMap)", token.GTR)))
+		keep := c06OneInt(s, "v >= N", c06Cmp(s, r, "v", token.GEQ))
+		if c06OneInt(s, "v - N", c06Cmp(s, r, "v", token.SUB)) != keep {
+			c06Die("detector: prune threshold and shift differ")
+		}
+		o.defN("det_prune_keep", keep)
+
+	})
+	// ---- rewriteTrzszTrigger
+	c06Try(o, "rewriteTrzszTrigger", func(o *out) {
+		w := s.fn("trzszDetector.rewriteTrzszTrigger").Body
+		o.defN("det_rewrite_min_len", c06OneInt(s, "len(uniqueID) >= N", c06Cmp(s, w, "len(uniqueID)", token.GEQ)))
+		o.defBytes("det_rewrite_suffix", c06OneStr(s, "bytes.HasSuffix", c06Args(c06Calls(s, w, "bytes.HasSuffix"), 1)))
+		var back, ch []ast.Expr
+		ast.Inspect(w, func(x ast.Node) bool {
+			if a, ok := x.(*ast.AssignStmt); ok && a.Tok == token.ASSIGN && len(a.Lhs) == 1 && len(a.Rhs) == 1 {
+				if ix, ok := a.Lhs[0].(*ast.IndexExpr); ok && s.text(ix.X) == "newUniqueID" {
+					if b, ok := ix.Index.(*ast.BinaryExpr); ok && b.Op == token.SUB && s.text(b.X) == "len(uniqueID)" {
+						back = append(back, b.Y)
+						ch = append(ch, a.Rhs[0])
+					}
+				}
+			}
+			return true
+		})
+		if len(back) != 1 {
+			c06Die("detector: expected exactly one newUniqueID[len(uniqueID)-k] = c")
+		}
+		o.defN("det_retag_back", s.evalInt(back[0], nil, 0))
+		o.defN("det_retag_char", s.evalInt(ch[0], nil, 0))
+
+	})
+	// ---- addRelaySuffix
+	c06Try(o, "addRelaySuffix", func(o *out) {
+		a := s.fn("trzszDetector.addRelaySuffix").Body
+		var offs []ast.Expr
+		ast.Inspect(a, func(x ast.Node) bool {
+			if as, ok := x.(*ast.AssignStmt); ok && as.Tok == token.ADD_ASSIGN && s.text(as.Lhs[0]) == "idx" {
+				offs = append(offs, as.Rhs[0])
+			}
+			return true
+		})
+		o.defN("det_relay_offset", c06OneInt(s, "idx += N", offs))
+		stop := c06Cmp(s, a, "c", token.NEQ)
+		if len(stop) != 2 {
+			c06Die("detector: addRelaySuffix scan class has an unexpected shape")
+		}
+		o.raw("Definition det_relay_scan_chars : list N := [%d; %d].\n", s.evalInt(stop[0], nil, 0), s.evalInt(stop[1], nil, 0))
+		o.defN("det_relay_scan_lo", c06OneInt(s, "c >= lo", c06Cmp(s, a, "c", token.GEQ)))
+		o.defN("det_relay_scan_hi", c06OneInt(s, "c <= hi", c06Cmp(s, a, "c", token.LEQ)))
+		var sufs []ast.Expr
+		for _, c := range c06Calls(s, a, "buf.Write") {
+			if len(c.Args) == 1 {
+				if cv, ok := c.Args[0].(*ast.CallExpr); ok && s.text(cv.Fun) == "[]byte" {
+					sufs = append(sufs, cv.Args[0])
+				}
+			}
+		}
+		o.defBytes("det_relay_suffix", c06OneStr(s, `buf.Write([]byte("#R"))`, sufs))
+
+	})
+	// ---- parseTrzszVersion
+	c06Try(o, "parseTrzszVersion", func(o *out) {
+		p := s.fn("parseTrzszVersion").Body
+		o.defBytes("det_version_sep", c06OneStr(s, "strings.Split sep", c06Args(c06Calls(s, p, "strings.Split"), 1)))
+		nf := c06OneInt(s, "len(tokens) != N", c06Cmp(s, p, "len(tokens)", token.NEQ))
+		if c06OneInt(s, "i < N", c06Cmp(s, p, "i", token.LSS)) != nf {
+			c06Die("detector: parseTrzszVersion token count and loop bound differ")
+		}
+		o.defN("det_version_fields", nf)
+		pu := c06Calls(s, p, "strconv.ParseUint")
+		o.defN("det_version_base", c06OneInt(s, "ParseUint base", c06Args(pu, 1)))
+		o.defN("det_version_bits", c06OneInt(s, "ParseUint bits", c06Args(pu, 2)))
+
+	})
+	// ---- the regexps
+	c06Try(o, "the regexps", func(o *out) {
+		for _, nv := range [][2]string{{"det_trzsz_regex_src", "trzszRegexp"}, {"det_uid_regex_src", "uniqueIDRegexp"}, {"det_tmux_regex_src", "tmuxControlModeRegexp"}} {
+			e, ok := s.vars[nv[1]]
+			if !ok {
+				c06Die("detector: var %s not found", nv[1])
+			}
+			c, ok := e.(*ast.CallExpr)
+			if !ok || s.text(c.Fun) != "regexp.MustCompile" || len(c.Args) != 1 {
+				c06Die("detector: %s is not regexp.MustCompile(<literal>)", nv[1])
+			}
+			o.defBytes(nv[0], s.evalString(c.Args[0]))
+		}
+
+	})
+	// ---- what trz / tsz print
+	c06Try(o, "what trz / tsz print", func(o *out) {
+		for _, nf := range [][2]string{{"det_trz_format", "TrzMain"}, {"det_tsz_format", "TszMain"}} {
+			var fm []ast.Expr
+			f, ok := s.funcs[nf[1]]
+			if !ok {
+				c06Die("detector: %s not found", nf[1])
+			}
+			for _, c := range c06Calls(s, f.Body, "fmt.Sprintf") {
+				if len(c.Args) > 0 {
+					if bl, ok := c.Args[0].(*ast.BasicLit); ok && bl.Kind == token.STRING {
+						if v := s.evalString(bl); len(v) > 20 && contains06(v, "TRANSFER") {
+							fm = append(fm, bl)
+						}
+					}
+				}
+			}
+			o.defBytes(nf[0], c06OneStr(s, nf[1]+" trigger format", fm))
+		}
+	})
 }
 
 func contains06(s, sub string) bool {
